@@ -1,6 +1,53 @@
-"""C07 - see props/_pk.py (profile table) and lib/packetprofile.py (procedure); DESIGN.md section 5."""
-from props import _pk
+"""C07 - bit fields partition their bytes MSB-first and never disturb neighbours (DESIGN.md 5.7).
+ (a) unpack side: MC_Packet over U_C07 (all 128 compositions of 8 bits x all 256 byte values; 24-bit groups;
+     runs next to other fields, nested, under a little-endian class default), replayed on real classes;
+ (b) pack side: MC_Values over U_C07V: every member takes values {0, 1, 2^w-1, 2^w, 2^w+1, -1, -2^w};
+     Inv_C07_Isolated: the output is the layout with every value reduced mod 2^w, and a second pack after
+     re-assigning one member (state kept between packs must not leak);
+ (c) class definition: MC_BitsReject: runs whose widths do not sum to a multiple of 8 are rejected."""
+from lib import common, packetprofile as pp, valuesprofile as vp
+from lib.tlcrun import run_tlc
+from bind import replay_packet as rp
+
+OWNED_U = {"conf_outcome", "conf_values", "conf_end", "conf_pack_outcome", "conf_out"}
+OWNED_V = {"C07_Isolated", "C07_Pack2", "conf_out", "conf_out2", "conf_pack_outcome", "conf_pack2_outcome", "ctor_error"}
+
+
+def reject_part(v):
+    from bind import declgen
+    res = run_tlc("MC_BitsReject", workers=4)
+    if res.violation:
+        raise common.MachineryFailure("MC_BitsReject violates %s" % res.violation["name"])
+    v.add_tlc(res, "MC_BitsReject (compositions of 1..12 bits, <=4 members, 4 contexts)")
+    with declgen.Scratch() as sc:
+        for c in res.emits:
+            r = sc.load(c["prog"], None, expect_error=True)
+            rejected = isinstance(r, Exception)
+            kind = type(r.__cause__ or r).__name__ if rejected else ""
+            v.count_case(("reject", tuple(c["ws"]), c["ctx"]), nontrivial=len(c["ws"]) >= 2)
+            v.cov["traces_validated_against_impl"] += 1
+            if rejected == c["definable"]:
+                v.violation("C07_Reject", "widths %r (%s): specification says %s, class definition %s %s" % (
+                    c["ws"], c["ctx"], "definable" if c["definable"] else "rejected",
+                    "raised" if rejected else "succeeded", str(r)[-300:] if rejected else ""), {"case": c})
+            elif rejected and type(r).__name__ != "ByteBoundaryError":
+                v.violation("C07_Reject", "rejected with something else than ByteBoundaryError: %s" % str(r)[-300:], {"case": c})
 
 
 def run(tier, seed):
-    return _pk.run("C07", tier, seed)
+    v = common.Verdict("C07", tier, seed)
+    common.bind_repo()
+    quick = tier == "quick"
+    gens = [rp.GEN_OFF, None]
+    for u in (["U_C07"] if quick else ["U_C07", "U_C07_16"]):
+        pp.exhaustive_part(v, u, ["Inv_Machine", "Inv_C04_Exact"], gens, OWNED_U, c01=False)
+    vp.exhaustive_part(v, "U_C07V", ["Inv_C07_Isolated", "Inv_Pack2", "Inv_C02_Layout"], gens, OWNED_V)
+    reject_part(v)
+    pp.random_part(v, seed, 300 if quick else 3000, gens, OWNED_U, "bits", c01=False)
+    v.cov["exhaustive"] = True
+    v.cov["rule"] = ("unpack: all 128 compositions of 8 bits x all 256 byte values (+ compositions of 16 bits with <=4 members x a "
+                     "7-value lane alphabet in thorough), 24-bit groups, embedded/nested runs; pack: every member value in "
+                     "{0,1,2^w-1,2^w,2^w+1,-1,-2^w}, second pack after re-assigning a member; class definition: compositions of "
+                     "1..12 bits in 4 contexts. non-trivial = at least two members / fields; distinct cases hashed.")
+    v.assumptions = ["bit groups up to 24 bits in the packet machine (TLC integers); wider groups through the IntCodec module (C05)"]
+    return v.finish()
